@@ -32,7 +32,32 @@ pub struct Range16 {
     pub hi: u32,
 }
 
+/// IANA STUN methods registry (RFC 8489 18.2, RFC 8656 18.1) against the library's named constants.
+pub fn check_method_constants() -> Result<(), String> {
+    use stun_rs::methods::*;
+    let table: [(&str, MessageMethod, u16); 9] = [
+        ("RESERVED", RESERVED, 0x000),
+        ("BINDING", BINDING, 0x001),
+        ("SHARED_SECRET", SHARED_SECRET, 0x002),
+        ("ALLOCATE", ALLOCATE, 0x003),
+        ("REFRESH", REFRESH, 0x004),
+        ("SEND", SEND, 0x006),
+        ("DATA", DATA, 0x007),
+        ("CREATE_PERMMISSION", CREATE_PERMMISSION, 0x008),
+        ("CHANNEL_BIND", CHANNEL_BIND, 0x009),
+    ];
+    for (name, m, v) in table {
+        if m.as_u16() != v {
+            return Err(format!("methods::{} is {:#05x}, the registry says {:#05x}", name, m.as_u16(), v));
+        }
+    }
+    Ok(())
+}
+
 pub fn check_u16_range(r: &Range16, st: &mut Stats) -> Result<(), String> {
+    if r.lo == 0 {
+        check_method_constants()?;
+    }
     for v in r.lo..=r.hi {
         let v = v as u16;
         st.evaluations += 1;
@@ -536,6 +561,16 @@ pub fn check_clone(c: &CloneCase, st: &mut Stats) -> Result<(), String> {
                     if got != exp || cp.password_algorithms().len() != exp.len() {
                         return Err(format!("PasswordAlgorithms copy {} holds {} entries, model {} after {:?}", i, got.len(), exp.len(), op));
                     }
+                    // consuming a clone by value while the other copies are alive yields the same entries
+                    let by_value: Vec<String> = cp.clone().into_iter().map(|a| format!("{:?}", a)).collect();
+                    if by_value != exp {
+                        return Err(format!("PasswordAlgorithms copy {}: clone().into_iter() yields {} entries, model {} after {:?}", i, by_value.len(), exp.len(), op));
+                    }
+                    // a copy moved into a StunAttribute keeps its entries and leaves the others untouched
+                    let wrapped: StunAttribute = cp.clone().into();
+                    if wrapped.as_password_algorithms().map(|x| x.iter().count()).unwrap_or(usize::MAX) != exp.len() {
+                        return Err(format!("PasswordAlgorithms copy {} wrapped into a StunAttribute lost entries after {:?}", i, op));
+                    }
                 }
             }
             st.class("target:PasswordAlgorithms");
@@ -574,6 +609,10 @@ pub fn check_clone(c: &CloneCase, st: &mut Stats) -> Result<(), String> {
                 for (i, cp) in copies.iter().enumerate() {
                     if cp.attributes() != &models[i][..] || cp.iter().count() != models[i].len() {
                         return Err(format!("UnknownAttributes copy {} = {:?}, model {:?} after {:?}", i, cp.attributes(), models[i], op));
+                    }
+                    let wrapped: StunAttribute = cp.clone().into();
+                    if wrapped.as_unknown_attributes().map(|x| x.attributes().to_vec()).unwrap_or_default() != models[i] {
+                        return Err(format!("UnknownAttributes copy {} wrapped into a StunAttribute differs from the model after {:?}", i, op));
                     }
                 }
             }
